@@ -40,16 +40,17 @@ PROPERTIES = {
     },
     'C12': {
         'functions': ['EventResult.update', 'BaseEvent.event_result_update', 'BaseEvent._event_result_is_truthy', 'BaseEvent.event_results_filtered', 'EventResult.__await__.wait',
-                      'BaseEvent.event_results_by_handler_id', 'BaseEvent.event_results_by_handler_name', 'BaseEvent.event_result', 'BaseEvent.event_results_list',
+                      'BaseEvent.event_results_by_handler_id', 'BaseEvent.event_results_by_handler_name', 'BaseEvent.event_result', 'BaseEvent.event_results_list', 'BaseEvent.event_results_flat_list',
                       'EventResult.handler_completed_signal', 'BaseEvent.event_completed_signal', 'bubus.get_handler_id', 'bubus.get_handler_name'],
         'trusted_base': [AX[k] for k in ('A1', 'A3', 'A6', 'A9', 'A10', 'X1', 'X2')] + [
             'A9: validates_ok(T, v) / validated(T, v) are pydantic\'s verdict and coerced value for (declared type, returned value): uninterpreted, deterministic; '
             'model_validate for BaseModel classes, TypeAdapter(T).validate_python otherwise; a TypeAdapter that cannot be built accepts nothing',
             'EventResult(...) constructor = pydantic model init (fields set from keywords, defaults otherwise)',
-            'include filters are pure user predicates (uninterpreted, total)',
+            'include filters are pure user predicates (uninterpreted, total, a function of the result object); a lambda handed to an inner accessor means its body, evaluated on the heap at the return of that call',
             'the accessor wrappers are stated over the ghost `last_view` = the dict returned by their inner event_results_filtered call (set at the call site)'],
-        'not_decided': ['event_results_flat_dict / event_results_flat_list (merging of the returned dict / list VALUES, raise_if_conflicts): not under contract - a returned dict or list is an opaque '
-                        'object in this encoding (no model of dict.update / key-view intersection on values of type Any)',
+        'not_decided': ['event_results_flat_dict (merging of the returned dict VALUES, raise_if_conflicts): not under contract - no model of dict.update / key-view intersection on values of type Any; '
+                        'event_results_flat_list IS under contract: a returned list is an object with the heap field list_items, the result is the concatenation of those lists in handler order '
+                        '(positional clauses over ghost offsets)',
                         'conformance of pydantic itself (A9) - a bounded table-driven stand-in is not included'],
         'assumptions': [],
     },
